@@ -329,6 +329,36 @@ def run(facts, cg):
                     if is_inc and has_field(simplify(T.of_operand(b, seeks[0][1]['args'][1])), st['pl']['p'][-1].get('n')):
                         if not _all_paths_hit(b, bi, seek_blocks):
                             finding('R-SEEK-EACH', b.q, 'no-reseek-after-chunk', 'after a chunk is delivered the next chunk can be read without seeking to its offset')
+    # the buffer the local chunk reader hands out has the length of the range it is for: the hand-out is dominated by a call that
+    # sets the buffer's length from the current range's size (the fill loop sizes it - but a zero-sized range is complete before it
+    # ever gets to the fill loop, and the buffer still holds the range before it)
+    n_ho = 0
+    for b in facts.bodies.values():
+        if not b.id.startswith('bitar::archive_reader::io_reader::') or b.generated:
+            continue
+        if not any('q' in t['callee'] and t['callee']['q'].endswith('AsyncSeek::start_seek') for _, t in b.calls()):
+            continue
+        dom = b.dominators()
+        sizers = [bi for bi, t in b.calls() if 'q' in t['callee'] and callee_q(t).startswith('bytes::bytes_mut::BytesMut::') and
+                  callee_q(t).split('::')[-1] in ('resize', 'truncate', 'split_to', 'set_len') and len(t['args']) > 1 and
+                  has_field(simplify(T.of_operand(b, t['args'][1])), 'size')]
+        for bi in b.live:
+            for st in b.blocks[bi]['stmts']:
+                if st['k'] == 'assign' and not st['pl']['p'] and st['pl']['l'] == 0 and st['rv']['k'] == 'agg' and st['rv'].get('vname') == 'Ready':
+                    term = simplify(T.of_operand(b, st['rv']['ops'][0]))
+                    if not any(n[0] == 'agg' and n[2] == 'Ok' for n in walk(term)):
+                        continue
+                    if not (has_call(term, 'BytesMut::clone') or has_call(term, 'BytesMut::freeze') or has_call(term, 'BytesMut::split')):
+                        continue
+                    n_ho += 1
+                    cut_here = has_call(term, 'BytesMut::split_to') and has_field(term, 'size')
+                    ok = cut_here or any(sb in dom.get(bi, ()) or sb == bi for sb in sizers)
+                    instances.append({'rule': 'R-EXACTLEN(chunk-stream)', 'function': b.q, 'handed_out_at': st['loc'], 'length_set_from_range_size_on_every_path': ok})
+                    if not ok:
+                        finding('R-EXACTLEN', b.q, 'stale-buffer-length', 'the buffer handed out at %s is not brought to the size of the current range on every path to '
+                                'it: a zero-sized range is complete before the fill loop sizes the buffer, so what is delivered for it is the range before it' % st['loc'])
+    if n_ho < 1:
+        finding('R-EXACTLEN', '-', 'floor-chunk-stream', 'the hand-out of the local chunk reader was not found (cannot decide)')
     if n_se < 1:
         finding('R-SEEK-EACH', '-', 'floor', 'the local chunk reader (start_seek / poll_complete / poll_read in module io_reader) was not found (cannot decide)')
 
